@@ -100,6 +100,15 @@ def cases(shard, rnd):
                                      tuple(map(int, str(abs(c)))), -sc))))
     for sc in mp.ints_in(0, 255):
         sweep.append(('value', gv.D((rnd.choice([0, 1]), (1, 5), -sc))))
+    # well-known names (and names the tree mentions / matches with a regular
+    # expression) x one valid value of every kind
+    names = list(gv.REAL_KEYS) + [x for x in mp.novel_strs if len(x) <= 128
+                                  and len(x.encode('utf-8')) <= 255]
+    for name in names:
+        for kind in gv.LEAF_KINDS:
+            sweep.append(('table', {name: gv.leaf(rnd, kind)}))
+        sweep.append(('table', {name: 1500.5, 'n': {name: [2.5, 7]}}))
+        sweep.append(('table', {name: gv.D('1500.5'), 'f': -0.25}))
     for w, v in sweep:
         k += 1
         if k % n == i:
